@@ -441,6 +441,19 @@ def oracle_functor(ctx, case, out, hit):
       if st[4] != e_nond:
         hit('C18/reported/non_default_args/%s' % disc, '%s: non_default_args reports %s, arguments off their default are %s' % (describe(case, False), names_of(st[4]), names_of(e_nond)))
 
+def typecheck_variant_hit(c, out):
+  """The same case under pg.enable_type_check(False): the arguments are untyped, so the outcome must be the one with checking on
+  (or the one of the direct call, when the run with checking on is itself a reported deviation)."""
+  out2, _ = run_functor_impl(c, typecheck=False)
+  got = out2[1] if out2[0][0] == 0 else [1, out2[0][2]]
+  exp = out[1] if out[0][0] == 0 else [1, out[0][2]]
+  ov, ie = eff_flags(c)
+  eff = effective(c['sig'], c['ctor'], c['lates'], c['call'], ov, ie)
+  if got != exp and got != expected_outcome(build(c['sig'], c['kind'])[0], c['sig'], eff):
+    return (classify_hit(c, got, exp, '-type-check-disabled'),
+            '%s: under pg.enable_type_check(False) the functor gives %s, with checking on %s' % (describe(c), show(got), show(exp)))
+  return None
+
 def oracle_class(ctx, case, out, hit):
   sig = case['sig']
   orig, X = build(sig, 'class', case.get('annotated', False))
@@ -603,13 +616,9 @@ def run(ctx):
     oracle_functor(ctx, c, out, hitter(c))
     # the same case with run-time type checking switched off must behave the same (arguments are untyped)
     if not c.get('annotated') and not any(k == c['sig']['varargs'] and not isinstance(v, list) for k, v in c['ctor'][1] + c['lates']) and rng.random() < .35:
-      out2, _ = run_functor_impl(c, typecheck=False)
       n_tc += 1
-      got = out2[1] if out2[0][0] == 0 else [1, out2[0][2]]
-      exp = out[1] if out[0][0] == 0 else [1, out[0][2]]
-      if got != exp:
-        ctx.hit(classify_hit(c, got, exp, '-type-check-disabled'), '%s: under pg.enable_type_check(False) the functor gives %s, with checking on %s' % (describe(c), show(got), show(exp)),
-                dict(op='case', case=c, typecheck=False))
+      h = typecheck_variant_hit(c, out)
+      if h: ctx.hit(h[0], h[1], dict(op='case', case=c, typecheck=False))
   ctx.extra['type_check_disabled_variants'] = n_tc
   for c in ccases:
     out, x = run_class_impl(c)
@@ -673,10 +682,10 @@ def replay(ctx, rp):
       out, x = run_functor_impl(case)
       oracle_functor(ctx, case, out, h)
       if c.get('typecheck') is False:
-        out2, _ = run_functor_impl(case, typecheck=False)
-        if (out2[1] if out2[0][0] == 0 else [1, out2[0][2]]) != (out[1] if out[0][0] == 0 else [1, out[0][2]]): hits.append(('type-check-disabled', 'differs from the run with checking on'))
+        hv = typecheck_variant_hit(case, out)
+        if hv: hits.append(hv)
   want = rp.get('signature')
-  rel = [x for x in hits if want is None or x[0] == want] or hits
+  rel = [x for x in hits if want is None or x[0] == want]
   for x in rel:
     print('  still fails:', x)
   return not rel
